@@ -75,7 +75,7 @@ PROP = dict(
     driver=driver,
     technique="stateless model checking of the real code: own preemption-bounded scheduler (iterative context bounding, one forked "
               "execution per schedule) behind clang's TSan instrumentation + vector-clock happens-before race detector on every access",
-    claim="for each of 45 two/three/four-thread scenarios (every plan kind shared; free functions hitting and evicting the per-thread plan "
+    claim="for each of 46 two/three/four-thread scenarios (every plan kind shared; free functions hitting and evicting the per-thread plan "
           "caches; function-local statics; per-thread RNG; distinct stateful objects; big lengths >= 4096) every schedule with at most 2 preemptions (of which "
           "at most 1 at an atomic operation in the quick tier, 2 in thorough; thorough raises the total to 3) over all scheduling points "
           "(thread start/end, operation boundaries, atomics, static-init guards, mutexes, join) is executed on the implementation; in every "
@@ -92,8 +92,8 @@ PROP = dict(
     rule="case = one complete execution (schedule) of a scenario in a forked child; all executions are distinct schedules and non-trivial "
          "(>= 2 managed threads running real library code); states = scenarios + distinct result vectors observed; transitions = scheduling "
          "decisions taken at choice points + executions; traces_validated_against_impl = executions (each IS a run of the implementation)",
-    bounds=dict(quick="45 scenarios; total preemptions <= 2 (1 for the long free-function mixes), at atomics <= 1; plan objects built in a thread that exits, used later from main and new threads (10 plan kinds x 5 histories x 3 users); thread-lifetime histories: all sequences of <= 3 events over {S(p), M(p), O(p,q)} x 5 programs (43k histories with a thread)",
-                thorough="45 scenarios; total preemptions <= 3 (2 for the long mixes), at atomics <= 2 (1 for scenarios whose root execution has > 150 choice points); thread-lifetime histories as quick plus all length-4 sequences over S/M; plus 200 free-running iterations under stock TSan (auxiliary sample)"),
+    bounds=dict(quick="46 scenarios; total preemptions <= 2 (1 for the long free-function mixes), at atomics <= 1; plan objects built in a thread that exits, used later from main and new threads (10 plan kinds x 5 histories x 3 users); thread-lifetime histories: all sequences of <= 3 events over {S(p), M(p), O(p,q)} x 5 programs (43k histories with a thread)",
+                thorough="46 scenarios; total preemptions <= 3 (2 for the long mixes), at atomics <= 2 (1 for scenarios whose root execution has > 150 choice points); thread-lifetime histories as quick plus all length-4 sequences over S/M; plus 200 free-running iterations under stock TSan (auxiliary sample)"),
     deadline=dict(quick=200, thorough=2400),
     mc_note="no separate model: every explored schedule is an execution of the implementation under the schedex runtime; a failing schedule is replayed once more before it is reported",
     assumptions=COMMON_ASSUME + [
